@@ -387,6 +387,7 @@ impl<'p> World<'p> {
             ClaimsSpec::RawC { bytes } => Claims::RawC(bytes.get()),
             ClaimsSpec::Probe { bytes } => Claims::Probe(bytes.get()),
             ClaimsSpec::Json { value } => Claims::Json(value.clone()),
+            ClaimsSpec::Typed { seed } => Claims::Typed(Box::new(crate::backend::TypedClaims::from_seed(*seed, 1, true))),
             ClaimsSpec::Reg { claims } => Claims::Reg(claims.clone()),
             ClaimsSpec::RegNow { ttl_s, ttl_ns, iss, sub, aud, jti } => {
                 let ttl = *ttl_s as i128 * 1_000_000_000 + *ttl_ns as i128;
@@ -979,6 +980,7 @@ impl<'p> World<'p> {
         let same = match cl {
             Claims::Raw(b) | Claims::Probe(b) | Claims::RawC(b) => *b == m,
             Claims::Json(v) => serde_json::from_slice::<serde_json::Value>(&m).ok().as_ref() == Some(v),
+            Claims::Typed(v) => serde_json::to_vec(v).is_ok_and(|w| w == m),
             Claims::Reg(_) => serde_json::from_slice::<serde_json::Value>(&m).is_ok_and(|v| v.is_object()),
         };
         if !same {
@@ -1849,6 +1851,7 @@ fn claims_digest(c: &Claims) -> String {
     match c {
         Claims::Raw(b) | Claims::Probe(b) | Claims::RawC(b) => format!("{} bytes [{}…]", b.len(), hex::encode(&b[..b.len().min(12)])),
         Claims::Json(v) => truncate(&v.to_string(), 60),
+        Claims::Typed(t) => truncate(&serde_json::to_string(t).unwrap_or_default(), 100),
         Claims::Reg(r) => truncate(&format!("{r:?}"), 100),
     }
 }
@@ -1889,6 +1892,7 @@ fn convert_claims(c: &Claims, pk: PayloadKind) -> Option<Claims> {
     let bytes: Vec<u8> = match c {
         Claims::Raw(b) | Claims::Probe(b) | Claims::RawC(b) => b.clone(),
         Claims::Json(v) => serde_json::to_vec(v).ok()?,
+        Claims::Typed(v) => serde_json::to_vec(v).ok()?,
         Claims::Reg(_) => return None,
     };
     match pk {
@@ -1899,6 +1903,7 @@ fn convert_claims(c: &Claims, pk: PayloadKind) -> Option<Claims> {
         PayloadKind::Json => serde_json::from_slice(&bytes).ok().map(Claims::Json),
         PayloadKind::Reg => None,
         PayloadKind::RawC => Some(Claims::RawC(bytes)),
+        PayloadKind::Typed => serde_json::from_slice(&bytes).ok().map(|t| Claims::Typed(Box::new(t))),
     }
 }
 
